@@ -57,8 +57,8 @@ theorem delSubsLoop_deactivate (st : St) (c : Option Session) (ids : List Nat) :
       | none => rfl
       | some c => cases owner <;> rfl
 
-theorem itemLoop_deactivate (st : St) (c : Option Session) (site : Site) (ids : List Nat) :
-    itemLoop (deactivate st) (c.map deact) site ids = itemLoop st c site ids := by
+theorem itemLoop_deactivate (st : St) (c : Option Session) (site : Site) (u m : Bool) (ids : List Nat) :
+    itemLoop (deactivate st) (c.map deact) site u m ids = itemLoop st c site u m ids := by
   induction ids with
   | nil => rfl
   | cons i rest ih =>
@@ -80,6 +80,7 @@ theorem itemLoop_deactivate (st : St) (c : Option Session) (site : Site) (ids : 
 @[simp] theorem deactivate_subs (st : St) : (deactivate st).subs = st.subs := rfl
 @[simp] theorem deactivate_items (st : St) : (deactivate st).items = st.items := rfl
 @[simp] theorem deactivate_nextItem (st : St) : (deactivate st).nextItem = st.nextItem := rfl
+@[simp] theorem deactivate_lastSub (st : St) : (deactivate st).lastSub = st.lastSub := rfl
 
 theorem body_deactivate_out (st : St) (t : Tok) (r : Req) :
     (body (deactivate st) t r).2 = (body st t r).2 := by
@@ -103,7 +104,7 @@ theorem body_deactivate_out (st : St) (t : Tok) (r : Req) :
       (by_cases hw : w = "DataType" <;> simp [hw])
   | browse c b => cases c <;> cases b <;> cases h : st.dataTypeAttr <;> simp [body, h]
   | createSubscription iv =>
-    simp only [body, findSession_deactivate, deactivate_subs]
+    simp only [body, findSession_deactivate, deactivate_subs, deactivate_lastSub]
     cases findSession st t <;> cases iv <;> rfl
   | publish =>
     simp only [body, findSession_deactivate]
@@ -129,10 +130,10 @@ theorem body_deactivate_out (st : St) (t : Tok) (r : Req) :
           by_cases h : o = c.token <;> simp [h]
   | setMonitoringMode ids =>
     simp only [body, findSession_deactivate, itemLoop_deactivate]
-    cases h : itemLoop st (findSession st t) "MonitoredItemService.SetMonitoringMode" ids <;> rfl
+    cases h : itemLoop st (findSession st t) "MonitoredItemService.SetMonitoringMode" setModeUnknownContinues setModeMismatchContinues ids <;> rfl
   | deleteMonitoredItems ids =>
     simp only [body, findSession_deactivate, itemLoop_deactivate]
-    cases h : itemLoop st (findSession st t) "MonitoredItemService.DeleteMonitoredItems" ids <;> rfl
+    cases h : itemLoop st (findSession st t) "MonitoredItemService.DeleteMonitoredItems" delItemsUnknownContinues delItemsMismatchContinues ids <;> rfl
   | other n => rfl
 
 theorem step_deactivate_out (st : St) (t : Tok) (r : Req) :
